@@ -62,6 +62,13 @@ pub fn run(ctx: &Ctx, out: &mut Out) {
             .collect();
         jobs.push((prog.render_items(), goals, i as u64 + 1));
     }
+    // impls with long, mixed where-clause lists (closed, pinning and open conditions)
+    let nwc = ctx.budget(150, 4000);
+    for i in 0..nwc {
+        let mut rng = ctx.rng(2, i as u64);
+        let (items, goals) = wc_rich_items(&mut rng);
+        jobs.push((items, goals, 1_000_000 + i as u64));
+    }
     for (items, goals, jid) in jobs {
         idx += 1;
         if !ctx.mine(idx) {
